@@ -21,6 +21,7 @@
 #define SOLREADER2_HPP
 
 #include <cstdio>
+#include <new>
 
 #include "mp/sol-reader2.h"
 
@@ -588,13 +589,18 @@ int SOLReader2<SOLHandler>::sufheadcheck(SufRead* sr) {
 
   n = (int)sr->h.n;
   if (sr->h.kind < 0 || sr->h.kind > 15 || n < 0 || sr->h.namelen < 2
+   || sr->h.namelen > 511        // the name is read into a 512-byte line
    || sr->h.tablen < 0)
     return 1;
   i = (int)sr->h.kind & 3;
   if (sr->h.tablen
    && (sr->tablines > sr->h.tablen + 1 || sr->tablines < 1))
     return 1;
-  sr->xp.resize((sr->h.tablen + 2*sr->h.namelen + 6));
+  try {                           // tablen comes from the file, too
+    sr->xp.resize((size_t)sr->h.tablen + 2*(size_t)sr->h.namelen + 6);
+  } catch (const std::bad_alloc& ) {
+    return 1;
+  }
   sr->name = (char*)sr->xp.data();
   sr->table = sr->name + sr->h.namelen;
   sr->tabname = sr->table + sr->h.tablen;
